@@ -71,28 +71,29 @@ def pre(B):
 
 
 def decide(args):
-    k, B, timeout_s = args
-    out = []
-    for name, term in obligations(k, B):
-        goal = pre(B) + [z3.Not(term)]
-        st, model, dt = solve.solve_z3(goal, (N,), timeout_s)
-        q = 1
-        if st not in ('sat', 'unsat'):
-            st, model, dt2 = solve.solve_cvc5(goal, ('n',), timeout_s)
-            dt += dt2
-            q += 1
-        n = None
-        if st == 'sat':
-            n = solve.model_float(model, 'n')
-        out.append(dict(k=k, name=name, status=st, n=n, solver_s=dt, queries=q))
-    return out
+    k, B, timeout_s, idx = args
+    obs = obligations(k, B)
+    name, term = obs[idx]
+    goal = pre(B) + [z3.Not(term)]
+    st, model, dt = solve.solve_z3(goal, (N,), timeout_s)
+    q = 1
+    if st not in ('sat', 'unsat'):
+        st, model, dt2 = solve.solve_cvc5(goal, ('n',), timeout_s)
+        dt += dt2
+        q += 1
+    n = None
+    if st == 'sat':
+        n = solve.model_float(model, 'n')
+    return dict(k=k, name=name, status=st, n=n, solver_s=dt, queries=q)
 
 
-def run(K, B, workers=16, timeout_s=120):
+def run(K, B, workers=16, timeout_s=90):
     import multiprocessing as mp
     t0 = time.time()
-    args = [(k, B, timeout_s) for k in range(1, K + 1)]
+    args = []
+    for k in range(1, K + 1):
+        for idx in range(len(obligations(k, B))):
+            args.append((k, B, timeout_s, idx))
     with mp.get_context('fork').Pool(min(workers, len(args))) as pool:
         res = pool.map(decide, args, chunksize=1)
-    flat = [r for rr in res for r in rr]
-    return flat, time.time() - t0
+    return res, time.time() - t0
